@@ -5,7 +5,7 @@ from props import _generic as g
 def run(ctx):
     fns = g.run_pyvc(ctx, "C03")
     g.run_funlink(ctx)
-    ctx.cvc(["II", "OO"] if ctx.tier == "quick" else ["II", "OO", "LF", "QQ", "fs"], ["F-SPLIT"], functions=["bucket_split", "BTree_split", "BTree_split_root"])
+    ctx.cvc(["II", "OO"] if ctx.tier == "quick" else ["II", "OO", "LF", "QQ", "fs"], ["F-SPLIT"], functions=["bucket_split", "BTree_split", "BTree_split_root", "BTree_grow"])
     ctx.standin("hist_rt", families=("OO", "II") if ctx.tier == "quick" else ("OO", "II", "LF", "QQ", "fs", "IO", "UU", "LL"),
                 args=["--mode", "wf"])
     return "proof", (
